@@ -5,6 +5,156 @@ package starlark
 // Contracts for the deductive verification in /verif (comment-only file; the
 // build tag keeps it out of every ordinary build).
 
+//@ specfn fits32(v int) bool = MIN32 <= v && v <= MAX32
+//@ specfn tdivm(a, b int) int = ite(a >= 0, div(a, b), -div(-a, b))
+//@ specfn floordiv(a, b int) int = ite(b > 0, div(a, b), div(-a, -b))
+//@ specfn val(i Int) int
+// fdq: witness for "x - (x % y) is a multiple of y" (any integer works as a witness of the existential)
+//@ specfn fdq(a, b int) int = ite((a < 0) != (b < 0) && a - b * tdivm(a, b) != 0, tdivm(a, b) - 1, tdivm(a, b))
+// inrem(r, y): r is a legal floored-division remainder for divisor y (sign of the divisor, |r| < |y|)
+//@ specfn inrem(r, y int) bool = (y > 0 ==> 0 <= r && r < y) && (y < 0 ==> y < r && r <= 0)
+
+// package-level big.Int constants are initialised once and never mutated (assumed; see DESIGN §4)
+//@ axiom minint64 != nil && maxint64 != nil && oneBig != nil && minint64.val == MIN64 && maxint64.val == MAX64 && oneBig.val == 1
+
+// ---- int_posix64.go: the pointer-packed representation is trusted (unsafe).
+//@ func Int.get
+//@   trusted unsafe pointer union; canonical-form invariant (big arm never holds an int32)
+//@   pure
+//@   results small big
+//@   ensures big == nil ==> fits32(small) && small == val(i)
+//@   ensures big != nil ==> big.val == val(i) && !fits32(val(i)) && small == 0
+//@ func makeSmallInt
+//@   trusted unsafe pointer arithmetic
+//@   pure
+//@   requires fits32(x)
+//@   ensures val(result) == x
+//@ func makeBigInt
+//@   trusted unsafe pointer cast
+//@   pure
+//@   requires x != nil && !fits32(x.val)
+//@   ensures val(result) == x.val
+
+// ---- int.go
+//@ func MakeInt64
+//@   prop C10
+//@   nopanic
+//@   ensures val(result) == x
+//@ func MakeInt
+//@   prop C10
+//@   nopanic
+//@   ensures val(result) == x
+//@ func MakeUint64
+//@   prop C10
+//@   nopanic
+//@   ensures val(result) == x
+//@ func MakeUint
+//@   prop C10
+//@   nopanic
+//@   ensures val(result) == x
+//@ func isSmall
+//@   prop C10
+//@   requires x != nil
+//@   pure
+//@   ensures result <==> fits32(x.val)
+//@ func MakeBigInt
+//@   prop C10
+//@   requires x != nil
+//@   nopanic
+//@   ensures val(result) == old(x.val)
+//@   ensures x.val == old(x.val)
+
+//@ func Int.Int64
+//@   prop C10
+//@   nopanic
+//@   results v ok
+//@   ensures ok <==> (MIN64 <= val(i) && val(i) <= MAX64)
+//@   ensures ok ==> v == val(i)
+//@ func Int.Uint64
+//@   prop C10
+//@   nopanic
+//@   results v ok
+//@   ensures ok <==> (0 <= val(i) && val(i) <= MAXU64)
+//@   ensures ok ==> v == val(i)
+//@ func bigintToInt64
+//@   prop C10
+//@   requires i != nil
+//@   pure
+//@   results v acc
+//@   ensures acc == 0 <==> (MIN64 <= i.val && i.val <= MAX64)
+//@   ensures acc == 0 ==> v == i.val
+//@ func bigintToUint64
+//@   prop C10
+//@   requires i != nil
+//@   pure
+//@   results v acc
+//@   ensures acc == 0 <==> (0 <= i.val && i.val <= MAXU64)
+//@   ensures acc == 0 ==> v == i.val
+//@ func Int.BigInt
+//@   prop C10
+//@   nopanic
+//@   ensures result != nil && result.val == val(i) && freshobj(result)
+//@ func Int.bigInt
+//@   prop C10
+//@   nopanic
+//@   modifies nothing
+//@   ensures result != nil && result.val == val(i)
+//@ func signum64
+//@   prop C10 C11
+//@   arith bv
+//@   nopanic
+//@   ensures (x < 0 ==> result == -1) && (x == 0 ==> result == 0) && (x > 0 ==> result == 1)
+//@ func signum
+//@   prop C10 C11
+//@   nopanic
+//@   ensures (x < 0 ==> result == -1) && (x == 0 ==> result == 0) && (x > 0 ==> result == 1)
+//@ func Int.Sign
+//@   prop C10
+//@   nopanic
+//@   ensures (val(x) < 0 ==> result == -1) && (val(x) == 0 ==> result == 0) && (val(x) > 0 ==> result == 1)
+//@ func Int.Cmp
+//@   prop C10 C11
+//@   requires typeis(v, Int)
+//@   nopanic
+//@   results r err
+//@   ensures err == nil
+//@   ensures (val(i) < val(as(v, Int)) ==> r == -1) && (val(i) == val(as(v, Int)) ==> r == 0) && (val(i) > val(as(v, Int)) ==> r == 1)
+//@ func Int.Add
+//@   prop C10
+//@   nopanic
+//@   ensures val(result) == val(x) + val(y)
+//@ func Int.Sub
+//@   prop C10
+//@   nopanic
+//@   ensures val(result) == val(x) - val(y)
+//@ func Int.Mul
+//@   prop C10
+//@   nopanic
+//@   ensures val(result) == val(x) * val(y)
+//@ func Int.Div
+//@   prop C10
+//@   requires val(y) != 0
+//@   nopanic
+//@   ensures val(result) == floordiv(val(x), val(y))
+//@   ensures euclid: inrem(val(x) - val(result) * val(y), val(y))
+//@ func Int.Mod
+//@   prop C10
+//@   requires val(y) != 0
+//@   nopanic
+//@   ensures sign: inrem(val(result), val(y))
+//@   ensures multiple: val(x) - val(result) == val(y) * fdq(val(x), val(y))
+//@ func Int.Not
+//@   prop C10
+//@   nopanic
+//@   ensures val(result) == -val(x) - 1
+//@ func AsInt32
+//@   prop C10 C13
+//@   requires x != nil
+//@   nopanic
+//@   results r err
+//@   ensures err == nil <==> (typeis(x, Int) && fits32(val(as(x, Int))))
+//@   ensures err == nil ==> r == val(as(x, Int))
+
 //@ specfn rlen(a, b, s int) int = ite(s > 0, ite(b > a, div(b - a - 1, s) + 1, 0), ite(a > b, div(a - b - 1, -s) + 1, 0))
 
 //@ func rangeLen
